@@ -366,8 +366,8 @@ func TestC03Matrix(t *testing.T) {
 	theT = t
 	defer removeBumped()
 	col := ev.New("C03", "matrix",
-		"the method list is read from the manifests compiled from the working tree (11 contracts); for every non-safe method x committee size {1,3,4,7} (4: an even size, where half of the keys is not a majority) a fresh fully deployed and prepared world is built and every signer class of the method's documented requirement is tried in turn (nobody relevant, a single Alphabet member, the committee majority where the Alphabet is required and vice versa, the named key without the Alphabet, the Alphabet without the named key, ...): each deficient class must FAULT (or answer false) and leave the full snapshot of all contracts, GAS/NEO balances and notifications untouched, the exactly-required class must succeed; methods whose name starts with '_' must not be callable; every safe method is committed with plausible arguments and must leave the snapshot untouched; verify of Proxy/Alphabet/Processing is evaluated for every signer class; methods and classes are enumerated completely, arguments are one valid tuple per method; a manifest method without a table row is reported as uncovered (not an alarm)",
-		"the witness requirement table is hand-written from the contracts' documentation", "one valid argument tuple per method")
+		"the method list is read from the manifests compiled from the working tree (11 contracts); for every non-safe method x committee size {1,3,4,7} (4: an even size, where half of the keys is not a majority) a fresh fully deployed and prepared world is built and every signer class of the method's documented requirement is tried in turn (nobody relevant, a single Alphabet member, the committee majority where the Alphabet is required and vice versa, the named key without the Alphabet, the Alphabet without the named key, ...): each deficient class must FAULT (or answer false) and leave the full snapshot of all contracts, GAS/NEO balances and notifications untouched, the exactly-required class must succeed; methods whose name starts with '_' must not be callable; every safe method is committed with plausible arguments and must leave the snapshot untouched; verify of Proxy/Alphabet/Processing is evaluated for every signer class; methods and classes are enumerated completely, arguments are one valid tuple per method here (groups arg-sweep and args vary them); a manifest method without a table row is reported as uncovered (not an alarm)",
+		"the witness requirement table is hand-written from the contracts' documentation")
 	defer func() { col.Flush(true) }()
 	nshards, shard := envInt("VERIF_NSHARDS", 1), envInt("VERIF_SHARD_INDEX", 0)
 	table := c03Table()
